@@ -24,6 +24,9 @@ pub static DEF: PropertyDef = PropertyDef {
     generate,
     execute,
     must_hit: &["fault.rejected_call.fired", "fault.rejected_call.attempted.ContinueWhenCant", "fault.rejected_call.attempted.RemoveMissingFlow", "fault.rejected_call.attempted.BindTwice", "fault.rejected_call.attempted.RemoveUnregisteredObserver"],
+    timeout_s: 30,
+    hang_class: None,
+    sub_builds: &[],
 };
 
 pub fn kinds() -> Vec<InvalidKind> {
